@@ -28,10 +28,13 @@ def extra(ctx, res):
         "K-UNIQ": "the no-repeats guard of a weighted batch ranges over (edge, layer) records, not over node tuples",
         "F-LAYERS": "edge_overlap ranges over all registered layers and accumulates the weight of the same hyperedge in each",
     })
-    RC.check_layer_registry(ctx, res)
-    check_uniq(ctx, res, cls, "LAYER")
+    with res.guard("RC.check_layer_registryctx, res"):
+        RC.check_layer_registry(ctx, res)
+    with res.guard("check_uniqctx, res, cls, LAYER"):
+        check_uniq(ctx, res, cls, "LAYER")
     eff = Effects(ctx)
-    check_pure(ctx, eff, res, "overlap.edge_overlap", roots=("h",))
+    with res.guard("check_purectx, eff, res, overlap.edge_overlap, rootsh,"):
+        check_pure(ctx, eff, res, "overlap.edge_overlap", roots=("h",))
     # edge_overlap: loop over get_existing_layers(), accumulate get_weight(edge, layer)
     v = ctx.view("overlap.edge_overlap")
     loops = [n for n in walk_no_nested(v.fi.node) if isinstance(n, ast.For) and isinstance(n.iter, ast.Call) and isinstance(n.iter.func, ast.Attribute) and n.iter.func.attr == "get_existing_layers"]
@@ -43,5 +46,6 @@ def extra(ctx, res):
         res.check(bool(okc), "F-LAYERS", v.fi.short, norm(lp.iter), "weight-of-layer", "the weight is not looked up for the layer of the current iteration", loc(v.fi, lp))
         augs = [a for a in ast.walk(lp) if isinstance(a, ast.AugAssign) and isinstance(a.op, ast.Add)]
         res.check(bool(augs), "F-LAYERS", v.fi.short, norm(lp.iter), "accumulate", "per-layer weights are not summed", loc(v.fi, lp))
-    check_filter_clients(ctx, res, DEGREE[:2])
+    with res.guard("check_filter_clientsctx, res, DEGREE:2"):
+        check_filter_clients(ctx, res, DEGREE[:2])
     return res
